@@ -4,6 +4,7 @@ import (
 	"go/ast"
 	"go/token"
 	"go/types"
+	"os"
 	"strings"
 
 	"sialint/internal/cfgx"
@@ -56,7 +57,9 @@ func c15r1(c *Ctx) {
 					why = "the debited amount is not a cost computed from the request's price table"
 					continue
 				}
-				csel, ok := cost.Fun.(*ast.SelectorExpr)
+				// (the price method may arrive as a method value bound to a helper's parameter: `cost()` with
+				// cost = req.Prices.RPCVerifySectorCost)
+				csel, ok := ast.Unparen(origin(f, cost.Fun)).(*ast.SelectorExpr)
 				if !ok || !strings.HasSuffix(csel.Sel.Name, "Cost") || !isFieldOfObj(f, origin(f, csel.X), req, "Prices") {
 					why = "the debited amount is not a cost computed from the request's price table"
 					continue
@@ -122,6 +125,12 @@ func c15r3(c *Ctx) {
 			rev := f.ObjOf(sink.Expr.Args[2])
 			k, _ := tupleDef(f, rev)
 			if rev == nil || k == nil || !isCoreConstructor(f.Callee(k)) || len(k.Args) < 2 {
+				if os.Getenv("SIALINT_DEBUGTUPLE") != "" {
+					println("c15r3", rev != nil, k != nil, len(wholeDefs(f, rev)))
+					for _, d := range wholeDefs(f, rev) {
+						println("   def", c.P.Pos(d.LHS.Pos()), d.RHS != nil)
+					}
+				}
 				ob.Bad(nil, "the revision credited with is not built by a core ReviseForFundAccounts/ReviseForReplenish call")
 				continue
 			}
